@@ -27,7 +27,8 @@ SHAPES = {
 }
 QUICK_SHAPES = ['line4', 'grid3x2', 'gen3x2x2', 'gen3x0x2', 'gen0x2x0', 'gen2x2x2']
 KINDS = ['callable', 'list', 'ndarray', 'constant', 'lookup_rank', 'lookup_np_rank', 'lookup_3d', 'constant_tuple',
-         'constant_list', 'callable_mixed', 'lookup_3d_reused', 'constant_subclass', 'callable_shift']
+         'constant_list', 'callable_mixed', 'lookup_3d_reused', 'constant_subclass', 'callable_shift',
+         'lookup_3d_tuples', 'lookup_3d_mixed']
 
 
 class PosConstant(Envs.ConstantGenerator):
@@ -144,6 +145,10 @@ class Harness:
         full = [[[f(ki, (x, y, z)) for z in range(ex[2])] for y in range(ex[1])] for x in range(ex[0])]
         if kind == 'lookup_3d':
             return Envs.LookupGenerator(full), vals, None
+        if kind == 'lookup_3d_tuples':      # the same table as nested tuples (read-only data, a zip(*rows) transpose, ...)
+            return Envs.LookupGenerator(tuple(tuple(tuple(zs) for zs in ys) for ys in full)), vals, None
+        if kind == 'lookup_3d_mixed':       # a list of tuples of lists
+            return Envs.LookupGenerator([tuple(list(zs) for zs in ys) for ys in full]), vals, None
         if kind == 'lookup_3d_reused':
             # ONE generator object per world whose table is edited in place before every further use
             gen = self._shared_gen
@@ -255,6 +260,58 @@ class Harness:
 
     def outcome(self, w):
         return (tuple((n, k) for n, (k, _) in w.cols.items()), w.last)
+
+
+class ReplaceHarness(Harness):
+    """Components are set and SET AGAIN under the same name (the later source replaces the earlier one), from lists,
+    from a generator of the coordinates, and from a generator that reads the other component through the `cells`
+    argument it is handed: it sees the other component as it is at that moment."""
+
+    SET_KINDS = ['list_a', 'list_b', 'callable', 'reads']
+
+    def __init__(self, shape):
+        super().__init__(shape, ['p', 'q'], ['callable'])
+        self.config = {'shape': shape, 'replace': True}
+
+    def ops(self, w):
+        ops = []
+        for n in self.names:
+            other = 'q' if n == 'p' else 'p'
+            for k in self.SET_KINDS:
+                if k == 'reads' and other in w.cols and w.cols[other][0] == 'reads':
+                    continue          # keeps the values (and so the state space) finite
+                ops.append(['set', n, k])
+        ops += [['remove', n] for n in self.names if n in w.cols]
+        return ops
+
+    def apply(self, w, op):
+        w.known_now = None
+        if op[0] != 'set':
+            return super().apply(w, op)
+        name, kind = op[1], op[2]
+        other = 'q' if name == 'p' else 'p'
+        n = len(self.table)
+        if kind == 'list_a':
+            src, vals = [10 + i for i in range(n)], [10 + i for i in range(n)]
+        elif kind == 'list_b':
+            src, vals = [500 - i for i in range(n)], [500 - i for i in range(n)]
+        elif kind == 'callable':
+            src = lambda pos, cells: 7000 + pos[0] + 10 * pos[1] + 100 * pos[2]      # noqa
+            vals = [src(p, None) for p in self.table]
+        else:
+            table = self.table
+
+            def src(pos, cells):
+                i = table.index(tuple(int(v) for v in pos))
+                return ('saw', _py(cells[other][i]) if other in cells.columns else None)
+            base = w.cols[other][1] if other in w.cols else [None] * n
+            vals = [('saw', b) for b in base]
+        w.world.add_cell_component(name, src)
+        w.cols[name] = (kind, vals)
+        w.last = ('set', kind, name in w.cols)
+
+    def refstate(self, w):
+        return tuple((n, k, repr(v)) for n, (k, v) in w.cols.items())
 
 
 def _py(v):
@@ -387,6 +444,13 @@ def run(ctx):
             ctx.transitions += hbfs._guard(big_world_case, case)
         except Violation as v:
             ctx.report(case, v)
+    if not ctx.violations:
+        for shape in (('grid3x2',) if ctx.tier == 'quick' else ('grid3x2', 'line4', 'gen2x2x2')):
+            h = ReplaceHarness(shape)
+            r = hbfs.explore(ctx, h, f'replace:{shape}', max_depth=40, procs=ctx.procs)
+            ctx.leg('replace', **r)
+            if not r.get('fixpoint'):
+                ctx.cap(f'replace:{shape}: fixpoint not reached')
     nt = 0
     for case in typed_array_cases():
         if ctx.violations:
@@ -411,6 +475,9 @@ def replay(case):
         hbfs._guard(big_world_case, case)
         return
     c = case['config']
+    if c.get('replace'):
+        hbfs.replay_case(ReplaceHarness(c['shape']), case)
+        return
     h = Harness(c['shape'], c['names'], c['kinds'])
     w = hbfs.replay_case(h, case)
     if w.known_now is not None:
